@@ -384,8 +384,8 @@ public:
   bool isEmpty() const override
   {
     return (lowerBound_ > upperBound_) ||
-           ((lowerBound_ > upperBound_) &&
-           inclUpperBound_ && inclLowerBound_);
+           ((lowerBound_ == upperBound_) &&
+           !(inclUpperBound_ && inclLowerBound_));
   }
 };
 } // end of namespace bpp.
